@@ -245,7 +245,9 @@ class Variable(FortranObj):
         filter_id = VAR_TYPE_ID
         if var_type in ["class", "type"]:
             filter_id = CLASS_TYPE_ID
-        for type_def in type_defs:
+        # Several modules may define the name: suggest the same one whatever
+        # the order in which the files happened to be added to the workspace
+        for type_def in sorted(type_defs, key=lambda obj: obj.FQSN):
             if type_def.get_type() == filter_id:
                 known_types[desc_obj_name] = (1, type_def)
                 break
